@@ -177,7 +177,42 @@ def typesig(model, ns_name, d):
         o['fields'] = fields
         o['all_fields'] = [t[0] for t in union_all_tags(model, ns_name, d)]
     o['examples'] = expected_examples(model, ns_name, d)
+    o['annotations_below'] = annotations_below(model, ns_name, d)
     return o
+
+
+def annotations_below(model, ns_name, d):
+    """Custom annotations applied to any member (or alias) reachable from definition d through parents, member types, alias
+    targets, list items, map values and nullables - a plain reachability closure, so the members of a reference cycle agree."""
+    found = set()
+    seen = set()
+    todo = [(ns_name, d)]
+    while todo:
+        n, x = todo.pop()
+        key = (n, getattr(x, 'name', None), type(x).__name__)
+        if key in seen:
+            continue
+        seen.add(key)
+        refs = []
+        if isinstance(x, (Struct, Union)):
+            if x.parent is not None:
+                refs += [(n, r) for r in mm.type_refs(x.parent)]
+            for f in mm.own_members(model, n, x):
+                for an, a in annotations_of(model, n, f.anns):
+                    if a.kind not in ('Omitted', 'RedactedBlot', 'RedactedHash', 'Deprecated', 'Preview'):
+                        found.add('%s@%s' % (f.name, a.name))
+                if f.type is not None:
+                    refs += [(n, r) for r in mm.type_refs(f.type)]
+        elif isinstance(x, Alias):
+            for an, a in annotations_of(model, n, x.anns):
+                if a.kind not in ('Omitted', 'RedactedBlot', 'RedactedHash', 'Deprecated', 'Preview'):
+                    found.add('%s@%s' % (x.name, a.name))
+            refs += [(n, r) for r in mm.type_refs(x.type)]
+        for rn, r in refs:
+            t = mm.resolve(model, rn, r)
+            if t is not None:
+                todo.append(t)
+    return sorted(found)
 
 
 def schema_fields(model):
